@@ -25,20 +25,25 @@ def pt_growth(nsteps):
     return max(1.0, nsteps / 5.0) ** 6
 
 
-def end_time(start, dt, nsteps):
-    """An end time safely inside step N (insensitive to grid rounding)."""
+def end_time(start, dt, nsteps, on_grid=False):
+    """An end time safely inside step N (insensitive to grid rounding), or
+    the grid point itself as a user computes it (start + N*dt in floats)."""
+    if on_grid:
+        return start + nsteps * dt
     return start + (nsteps + 0.4) * dt
 
 
-def run_tempo(system, oper, corr, rho0, start, dt, nsteps, params, unique):
+def run_tempo(system, oper, corr, rho0, start, dt, nsteps, params, unique,
+              on_grid=False):
     import oqupy
     bath = oqupy.Bath(oper, corr)
     t = oqupy.Tempo(system, bath, params, rho0, start, unique=unique)
-    return t.compute(end_time(start, dt, nsteps), progress_type="silent")
+    return t.compute(end_time(start, dt, nsteps, on_grid),
+                     progress_type="silent")
 
 
 def run_pt(system, oper, corr, rho0, start, dt, nsteps, params, unique,
-           subdiv_limit=256, file_backed=False, reimport=None):
+           subdiv_limit=256, file_backed=False, reimport=None, on_grid=False):
     """PT-TEMPO + compute_dynamics; with file_backed the process tensor is
     computed straight into an HDF5 file (removed afterwards)."""
     import os
@@ -51,7 +56,8 @@ def run_pt(system, oper, corr, rho0, start, dt, nsteps, params, unique,
         os.close(fd)
         os.remove(fn)
     try:
-        pt = oqupy.pt_tempo_compute(bath, start, end_time(start, dt, nsteps),
+        pt = oqupy.pt_tempo_compute(bath, start,
+                                    end_time(start, dt, nsteps, on_grid),
                                     params, unique=unique,
                                     process_tensor_file=fn,
                                     progress_type="silent")
@@ -128,6 +134,25 @@ class MeanFieldModel:
         self.fc = field_coupled
         self.gamma = [float(rng.uniform(0.05, 0.2)) for _ in dims]
         self.lop = [gen.cplx(rng, (d, d), 0.5) for d in dims]
+        # explicit time dependence of the dissipators too (own generator so
+        # that the other draws stay what they were)
+        rng2 = np.random.default_rng(int(rng.integers(2 ** 31)))
+        self.gw = float(rng2.uniform(1.5, 4.0))
+        self.gamp = float(rng2.uniform(0.5, 0.9)) if time_dependent else 0.0
+        self.lop1 = [gen.cplx(rng2, (d, d), 0.3 if time_dependent else 0.0)
+                     for d in dims]
+
+    def gamma_fn(self, k, tshift=0.0):
+        g0, amp, w = self.gamma[k], self.gamp, self.gw
+        return lambda t: g0 * (1.0 + amp * np.sin(w * (t - tshift) + 0.4 * k))
+
+    def lop_fn(self, k, v=None, tshift=0.0):
+        l0, l1, w = self.lop[k], self.lop1[k], self.gw
+
+        def lk(t):
+            op = l0 + np.cos(0.7 * w * (t - tshift)) * l1
+            return op if v is None else v @ op @ v.conj().T
+        return lk
 
     def build(self, vs=None, tshift=0.0, probe=None):
         import oqupy
@@ -143,12 +168,10 @@ class MeanFieldModel:
                 if self.td:
                     h = h + np.cos(self.w * (t - tshift)) * self.y[k]
                 return v @ h @ v.conj().T
-            lk = v @ self.lop[k] @ v.conj().T
-            gk = self.gamma[k]
             hkw = probe.wrap(f"H{k}", hk) if probe is not None else hk
             systems.append(oqupy.TimeDependentSystemWithField(
-                hkw, gammas=[lambda t, gk=gk: gk],
-                lindblad_operators=[lambda t, lk=lk: lk]))
+                hkw, gammas=[self.gamma_fn(k, tshift)],
+                lindblad_operators=[self.lop_fn(k, v, tshift)]))
 
         def eom(t, states, a):
             val = -(self.kappa + 1j * self.om) * a + self.c0 \
